@@ -123,7 +123,12 @@ pub fn generate(seed: u64, idx: u64) -> Scenario {
                         14..=16 => gen::overshoot_edit(&mut rng, &cur),
                         _ => Edit {
                             range: None,
-                            text: if rng.chance(500) { initial_text(&mut rng) } else { gen::unicode_text(&mut rng, 12) },
+                            text: match rng.below(5) {
+                                0 | 1 => initial_text(&mut rng),
+                                2 | 3 => gen::unicode_text(&mut rng, 12),
+                                // the same text again (a client re-synchronising)
+                                _ => cur.clone(),
+                            },
                         },
                     };
                     gen::apply(&mut cur, &e);
@@ -158,7 +163,20 @@ pub fn generate(seed: u64, idx: u64) -> Scenario {
         s.shutdown();
         s.exit();
     }
-    let steps = s.steps;
+    let mut steps = s.steps;
+    // one session in eight offers position encodings in `initialize` (LSP 3.17). Where UTF-8 is
+    // among them every position the client sends is one that means the same in both units (no
+    // non-ASCII character to its left on the line), so the script is well-formed whatever the
+    // server picks; what the server REPORTS is read in the unit it picked.
+    if idx % 8 == 5 {
+        let enc = [2u8, 3, 2, 1][(idx as usize / 8) % 4];
+        if let ClientOp::Initialize { enc: e, .. } = &mut steps[0].op {
+            *e = enc;
+        }
+        if enc >= 2 {
+            neutralise(&mut steps);
+        }
+    }
     let mut sc = Scenario {
         property: ID.into(),
         label: "replication".into(),
@@ -182,6 +200,44 @@ pub fn generate(seed: u64, idx: u64) -> Scenario {
     }
     sc.segmentation = pick_segmentation(&mut rng, &stream, &ends);
     sc
+}
+
+/// Moves every position of the script to the left until no non-ASCII character is to its left on
+/// its line: such a position is the same number in UTF-8 and UTF-16 columns.
+fn neutralise(steps: &mut [Step]) {
+    fn neutral(text: &str, line: u32, character: u32) -> u32 {
+        let a = offset_at(text, line, 0);
+        let b = offset_at(text, line, u32::MAX);
+        match text[a..b].char_indices().find(|(_, c)| !c.is_ascii()) {
+            // the line is ASCII up to byte `i`: columns up to `i` mean the same in both units; a
+            // column behind the non-ASCII character does not (not even an overshooting one)
+            Some((i, _)) => character.min(i as u32),
+            None => character,
+        }
+    }
+    let mut replica = crate::h::client::Replica::default();
+    for st in steps.iter_mut() {
+        match &mut st.op {
+            ClientOp::Change { uri, edits } => {
+                if let Some(mut t) = replica.docs.get(uri.as_str()).cloned() {
+                    for e in edits.iter_mut() {
+                        if let Some(r) = e.range.as_mut() {
+                            r[1] = neutral(&t, r[0], r[1]);
+                            r[3] = neutral(&t, r[2], r[3]);
+                        }
+                        crate::h::client::apply_edit(&mut t, e);
+                    }
+                }
+            }
+            ClientOp::Request { uri, line, character, .. } => {
+                if let Some(t) = replica.docs.get(uri.as_str()) {
+                    *character = neutral(t, *line, *character);
+                }
+            }
+            _ => {}
+        }
+        replica.apply(&st.op);
+    }
 }
 
 /// Features of a change that matter for classifying a divergence.
@@ -335,6 +391,17 @@ pub fn judge(sc: &Scenario) -> Judgement {
     };
     let rec = runner::run(sc, &opts);
     j.runs.push(RunStats::of(&rec));
+    // the unit of columns: what the handshake agreed on. From here on the client speaks it: the
+    // numbers in the script are its positions, and what the server reports is read the same way
+    let init_id = sc.script[0].op.request_id().unwrap_or(0) as i64;
+    let init_result = rec.responses().iter().find(|r| r.0 == init_id).and_then(|r| r.1.cloned());
+    let enc = crate::h::client::negotiated(&sc.script, init_result.as_ref());
+    j.probe("position encodings offered in initialize", sc.script.iter().any(|s| matches!(s.op, ClientOp::Initialize { enc: 1..=3, .. })) as u64);
+    j.probe("UTF-8 columns agreed on", (enc == crate::h::client::Enc::Utf8) as u64);
+    crate::h::client::with_enc(enc, move || judge_session(sc, rec, j))
+}
+
+fn judge_session(sc: &Scenario, rec: RunRecord, mut j: Judgement) -> Judgement {
     let want = expectations(sc);
     // probes of reach
     let all_features: Vec<&str> = want.writes.iter().map(|w| w.2.as_str()).collect();
@@ -514,10 +581,11 @@ pub fn judge(sc: &Scenario) -> Judgement {
                     "diagnostic-range",
                     format!("diagnostic-range {feature}"),
                     format!(
-                        "publishDiagnostics for {uri}: diagnostic #{k} ({}) is published at {:?}, in the client's text its range is {:?} (text {})",
+                        "publishDiagnostics for {uri}: diagnostic #{k} ({}) is published at {:?}, in the client's text its range is {:?}{} (text {})",
                         got[k].0.trim(),
                         got[k].1,
                         want_d[k].1,
+                        if crate::h::client::current_enc() == crate::h::client::Enc::Utf8 { " - columns in UTF-8 units, as agreed in the handshake" } else { "" },
                         quote(t)
                     ),
                 );
